@@ -128,6 +128,15 @@ Proof.
   destruct (Z.ltb_spec (l_max_q l) r); lia.
 Qed.
 
+(* whatever the configured maximum (0 included), a revised queue size is at least 1 *)
+Theorem q_floor l r : 0 <= r -> 1 <= sanitize_queue_size l r.
+Proof.
+  intros Hr. unfold sanitize_queue_size.
+  destruct (Z.eqb_spec r 0); [cbn; lia|].
+  destruct (Z.eqb_spec r 1); [cbn; lia|]. cbn [orb].
+  destruct (Z.ltb_spec (l_max_q l) r); lia.
+Qed.
+
 (* ---- the oracle on the model's own output -------------------------------------------------- *)
 Lemma validb_spec c : valid c ->
   fnan (of_bits (c_min_pub c)) = false /\ fnan (of_bits (c_min_samp c)) = false /\
